@@ -80,6 +80,8 @@ NONNEG_HALF = {
 #   dr           T_dr = dr^(+-1) T_1, on the first call AND on repeated calls with the same parameters (cache hits),
 #                and dr = 1 is still right afterwards
 #   scale        T(2^k X) = 2^k T(X) for k = -40, -20, 20, 40 (exact powers of two)
+#   dtype        whenever a result is returned for an integer-typed image it equals the result for the same values stored as
+#                floats and is linear with integer coefficients (a loud TypeError/ValueError is acceptable)
 CHECK_SRC = '''
 def half_check(f, clause, n, rows, dr, seed, a, b, expo, nonneg, TOL):
     raw = lambda X, dr=1.0: A2(f(np.array(X, dtype=float), dr))      # no cache reset
@@ -128,6 +130,19 @@ def half_check(f, clause, n, rows, dr, seed, a, b, expo, nonneg, TOL):
             d = max(d, dev(T(lam * X), lam * TX) / (lam * mx))
     elif clause == 'homogeneous':
         d = dev(T(a * X), a * TX) / (a * mx)
+    elif clause == 'dtype':
+        # an integer-typed image is an image: same result as for the same values stored as floats, and linear on integers
+        it = np.int64 if n & 1 else np.int32
+        Xi = np.rint(X).astype(it); Yi = np.rint(Y).astype(it)
+        tf = T(Xi.astype(float))
+        try:
+            fresh(); ti = A2(f(Xi.copy(), 1.0))
+        except (TypeError, ValueError):
+            return 0.0, tol, norm          # refusing an integer-typed image loudly is acceptable (not a silent wrong result)
+        d = dev(ti, tf) / mx
+        if not nonneg:
+            fresh(); tl = A2(f(2 * Xi - 3 * Yi, 1.0))
+            d = max(d, dev(tl, 2 * tf - 3 * T(Yi.astype(float))) / (5 * mx))
     return d, tol, norm
 '''
 
@@ -239,6 +254,17 @@ rng = np.random.default_rng(seed)
 X = rng.normal(size=(size, size)) * 10; Y = rng.normal(size=(size, size)) * 10
 if clause == 'homogeneous':
     X = np.abs(X)
+if clause == 'dtype':
+    Xi = np.rint(X).astype(np.int64); Yi = np.rint(Y).astype(np.int64)
+    tf = T(Xi.astype(float)); tg = T(Yi.astype(float))
+    try:
+        fresh(); ti = np.asarray(f(Xi.copy()), dtype=float)
+    except (TypeError, ValueError):
+        print('the integer-typed image is refused loudly: acceptable'); sys.exit(0)
+    fresh(); tl = np.asarray(f(2 * Xi - 3 * Yi), dtype=float)
+    d = max(dev(ti, tf), dev(tl, 2 * tf - 3 * tg)); scale = 2 * float(np.max(np.abs(tf))) + 3 * float(np.max(np.abs(tg)))
+    print('%%s %%dx%%d integer image: deviation from the float result / from linearity %%.3e, scale %%.3e' %% (name, size, size, d, scale))
+    sys.exit(0 if d <= rtol * scale else 1)
     TX = T(X); d = dev(T(a * X), a * TX); scale = a * float(np.max(np.abs(TX)))
 else:
     TX, TY = T(X), T(Y); d = dev(T(a * X + b * Y), a * TX + b * TY)
@@ -381,7 +407,7 @@ def search(ctx, rng, enlarged):
                     seed = seed0 + n
                     rows = 3 + n % 2
                     a, b = (-1.7, 0.6) if n % 2 else (2.5, -3.25)
-                    clauses = [('rows', 1.0), ('near-rows', 1.0), ('scale', 1.0)] + [('dr', dr) for dr in drs]
+                    clauses = [('rows', 1.0), ('near-rows', 1.0), ('scale', 1.0), ('dtype', 1.0)] + [('dr', dr) for dr in drs]
                     if nonneg:
                         clauses += [('homogeneous', 0.3), ('homogeneous', 7.0)]
                     else:
@@ -471,6 +497,31 @@ def search(ctx, rng, enlarged):
                     n_eval += 1
                     distinct.add((name, size, clause))
                     note(name.split('-')[0], d, rtol * scale)
+                    if clause == 'linear':
+                        # integer-typed images: same as floats, and linear with integer coefficients
+                        try:
+                            Xi, Yi = np.rint(X).astype(np.int64), np.rint(Y).astype(np.int64)
+                            tf, tg = TF(Xi), TF(Yi)
+                            si = 2 * float(np.max(np.abs(tf))) + 3 * float(np.max(np.abs(tg)))
+                            try:
+                                fresh()
+                                ti = np.asarray(f(Xi.copy()), dtype=float)
+                                fresh()
+                                tl = np.asarray(f(2 * Xi - 3 * Yi), dtype=float)
+                                di = max(dev(ti, tf), dev(tl, 2 * tf - 3 * tg))
+                            except (TypeError, ValueError):
+                                di = 0.0       # refused loudly: acceptable
+                        except Exception as ex:    # noqa
+                            di, si = float('inf'), 1.0
+                        n_eval += 1
+                        distinct.add((name, size, 'dtype'))
+                        note('dtype', di, rtol * si)
+                        if not di <= rtol * si:
+                            hits.append(Hit('dtype', 'C04:%s:dtype' % name,
+                                            '%s on %dx%d INTEGER-typed images: result differs from the float-typed one / is not linear '
+                                            '(deviation %.2e, scale %.2e)' % (name, size, size, di, si),
+                                            SNIP_FULL % dict(name=name, clause='dtype', size=size, seed=seed, a=a, b=b, rtol=rtol, fn=src),
+                                            dict(operator=name, size=size, deviation=di, scale=si)))
                     if not d <= rtol * scale:
                         hits.append(Hit(clause, 'C04:%s:%s' % (name, clause),
                                         '%s on %dx%d images: %s fails by %.2e (scale of outputs %.2e)' % (name, size, size, clause, d, scale),
